@@ -369,6 +369,13 @@ class Ctx:
         self.notes = []
         self.logdir = os.path.join(CACHE, "logs", prop)
         os.makedirs(self.logdir, exist_ok=True)
+        # a driver thread that panics while running a registered input writes it here (kvh::panicrec)
+        self.panic_file = os.path.join(self.logdir, "panic_input.json")
+        try:
+            os.remove(self.panic_file)
+        except FileNotFoundError:
+            pass
+        os.environ["KVH_PANIC_FILE"] = self.panic_file
 
     # ---- logging
     def log(self, name, text):
@@ -450,6 +457,28 @@ class Ctx:
 
     def violation(self, replay_obj, no_input=False):
         os.makedirs(os.path.join(VERIF, "replays"), exist_ok=True)
+        if no_input and "crashed" in str(replay_obj.get("kind", "")) and os.path.exists(self.panic_file):
+            # the driver died in a panic while running a registered input: that input is the replay
+            try:
+                rec = json.loads(open(self.panic_file).read().strip() or "{}")
+            except ValueError:
+                rec = {}
+            try:
+                os.remove(self.panic_file)
+            except FileNotFoundError:
+                pass
+            if rec.get("input") is not None:
+                replay_obj = dict(replay_obj)
+                replay_obj["kind"] = "panic-on-input"
+                replay_obj["panic_location"] = rec.get("panic_location")
+                replay_obj["panic_message"] = rec.get("panic_message")
+                try:
+                    replay_obj["input"] = json.loads(rec["input"])
+                except (ValueError, TypeError):
+                    replay_obj["input"] = rec["input"]
+                # a panic inside the engine on an ordinary API input is a concrete failing input;
+                # a panic inside the harness names the input but leaves the diagnosis open
+                no_input = not str(rec.get("panic_location", "")).startswith("/repo/")
         blob = json.dumps(replay_obj, sort_keys=True, default=str)
         h = hashlib.sha1(blob.encode()).hexdigest()[:10]
         path = os.path.join(VERIF, "replays", "%s-%s.json" % (self.prop, h))
